@@ -685,10 +685,10 @@ class RandomPrograms:
         if k == 'paren':
             return Paren(self.expr(d - 1))
         if k == 'call1':
-            f = self.func(FUNCS1)
+            f = self.func(FUNCS1 + list(self.extra_funcs1) if getattr(self, 'extra_funcs1', None) else FUNCS1)
             return Call(f, [self.expr(d - 1)]) if f else self.var()
         if k == 'call2':
-            f = self.func(FUNCS2)
+            f = self.func(FUNCS2 + list(self.extra_funcs2) if getattr(self, 'extra_funcs2', None) else FUNCS2)
             return Call(f, [self.expr(d - 1), self.expr(d - 1)]) if f else self.var()
         if k == 'cmp':
             return IfExp(self.expr(d - 1), Cmp(rng.choice(CMPOPS), self.expr(d - 1), self.expr(d - 1)), self.expr(d - 1))
